@@ -27,9 +27,9 @@ var c13Surround = []struct {
 }
 
 var c13Inval = []struct {
-	name   string
-	rule   func() *grl.Rule
-	inval  bool
+	name  string
+	rule  func() *grl.Rule
+	inval bool
 }{
 	{"assign-arg", func() *grl.Rule { return grl.R("vAssign", grl.Sal(2), "F.I < 2", "F.I = F.I + 1") }, true},
 	{"assign-similar-name", func() *grl.Rule { return grl.R("vOther", grl.Sal(2), "F.I2 < 2", "F.I2 = F.I2 + 1") }, false},
